@@ -277,7 +277,7 @@ class C14(Check):
                 dom = 'descending'      # every walk over a table of 200 000 slots is slow: one in five, short histories
             yield {'kind': 'history', 'states': states, 'via': 'direct' if (nstates == 1 and k % 2) else 'manager',
                    'domain': dom, 'ops': gen_history(rng, states, 900 if dom == 'wide' else 30 if dom == 'far' else rng.choice([50, 120, 400]), dom),
-                   'dtype_literals': bool(k % 2)}
+                   'dtype_literals': bool(rng.getrandbits(1))}      # (drawn: k % 2 selects `via`, h the domain)
 
     # ------------------------------------------------------------------
     def evaluate(self, case):
